@@ -8,6 +8,7 @@ import Lemmas.Alter.Schema
 import Lemmas.Alter.Raises
 import Lemmas.Alter.PgIdentity
 import Lemmas.Alter.Address
+import Lemmas.Alter.Constraints
 /-!
 # C13 — alter_column changes only what it was asked to change, on every dialect
 
@@ -274,6 +275,41 @@ example : (alterColumn .default addressWitness).stmts =
 /-- the checker rejects the constraint on the old name after the rename -/
 example : addressOk "c1" [.rename ⟨none, "t1"⟩ "c1" "c2", .addConstraint ⟨none, "t1"⟩ (some "ck_b1") "c1"] = false := by
   decide
+
+/-! ## the type-bound CHECK constraint -/
+
+/-- **Constraints.** The CHECK constraint a schema type (Boolean / Enum with `create_constraint`)
+owns is part of the column's type: a `DROP CONSTRAINT` is emitted only when a type change is
+requested and names the constraint of the stated existing type, an `ADD ... CHECK` only as the
+constraint of the requested new type. -/
+theorem constraints (d : Dialect) (r : Req) : constraintOk r (alterColumn d r).stmts = true :=
+  alterColumn_constraintOk d r
+
+/-- in particular: without `type_` no constraint statement is emitted, whatever `existing_type` says -/
+theorem constraints_untouched_without_type (d : Dialect) (r : Req) (h : r.type_ = none) :
+    (alterColumn d r).stmts.all (fun st => !isConstraint st) = true := by
+  have hc := constraints d r
+  simp only [constraintOk, List.all_eq_true] at *
+  intro st hst
+  have := hc st hst
+  cases st <;> simp_all [constraintStmtOk, isConstraint]
+
+/-- nullable-only change of a column whose stated existing type owns a named CHECK constraint -/
+def constraintWitness : Req :=
+  { table := "t1", column := "c1", schema := none,
+    type_ := none, nullable := some false, serverDefault := .unset, newName := none, comment := .unset,
+    autoinc := none, exType := some ⟨"SMALLINT", false, some (some "ck_b1")⟩, exNullable := none,
+    exDefault := .unset, exComment := none, exAutoinc := none, usingE := none }
+
+example : (alterColumn .oracle constraintWitness).stmts = [.nullable ⟨none, "t1"⟩ "c1" false] := by decide
+
+/-- the checker rejects a stray DROP CONSTRAINT ahead of the requested statement -/
+example : constraintOk constraintWitness
+    [.dropConstraint ⟨none, "t1"⟩ "ck_b1", .nullable ⟨none, "t1"⟩ "c1" false] = false := by decide
+
+/-- ... and accepts the drop when the type does change -/
+example : constraintOk { constraintWitness with type_ := some ⟨"INTEGER", false, none⟩ }
+    (alterColumn .oracle { constraintWitness with type_ := some ⟨"INTEGER", false, none⟩ }).stmts = true := by decide
 
 /-! ## dialects that cannot express a requested change raise -/
 
